@@ -13,6 +13,15 @@ class _Self:
     pass
 
 
+class _FalsySelf(_Self):
+    """a receiver that is false in a boolean context (an empty container, say)"""
+    def __bool__(self):
+        return False
+
+    def __len__(self):
+        return 0
+
+
 def ret_body(params):
     items = ', '.join('%r: %s' % (p[0], p[0]) for p in params)
     return 'return {%s}' % items
@@ -113,13 +122,19 @@ def real_deccall_stacked(req):
 
 
 @functools.lru_cache(maxsize=20000)
-def decorated(ps, P, W, method=False):
+def decorated(ps, P, W, method=False, falsy=False, annotated=False):
     """-> ('ok', callable, advertised canonical params) | ('err', cls)"""
     if method:
         f = base_func((core.P('self', 'pk'),) + tuple(ps))
         # the returned dict must not contain self: wrap by a class below
     else:
         f = base_func(tuple(ps))
+    if annotated:
+        # annotate() writes into the function's __annotations__: give this variant a function of its own
+        import types as _types
+        g = _types.FunctionType(f.__code__, f.__globals__, f.__name__, f.__defaults__, f.__closure__)
+        g.__kwdefaults__ = dict(f.__kwdefaults__) if f.__kwdefaults__ else None
+        f = g
     try:
         with warnings.catch_warnings():
             warnings.simplefilter('ignore')
@@ -133,8 +148,15 @@ def decorated(ps, P, W, method=False):
                 dec = f
     except Exception as e:  # noqa
         return core.canon_exc(e)
+    if annotated and isinstance(dec, modifiers._PokTranslator):
+        # annotate() applied on top re-prepares the translators underneath: call behaviour must not change
+        first = next((q[0] for q in ps if q[1] in ('po', 'pk', 'ko')), None)
+        if first is not None:
+            with warnings.catch_warnings():
+                warnings.simplefilter('ignore')
+                dec = modifiers.annotate(**{first: 42})(dec)
     if method:
-        cls = type('C', (_Self,), {'m': dec})
+        cls = type('C', (_FalsySelf if falsy else _Self,), {'m': dec})
         return ('ok', cls, None)
     return ('ok', dec, None)
 
@@ -142,7 +164,8 @@ def decorated(ps, P, W, method=False):
 def real_deccall(req):
     op, P, W, args, kw, ps = req
     method = op == 'deccallm'
-    r = decorated(tuple(ps), tuple(P), tuple(W), method)
+    variant = (len(args) + 2 * len(kw) + len(ps)) % 4       # plain / falsy receiver / annotate on top / both
+    r = decorated(tuple(ps), tuple(P), tuple(W), method, falsy=method and variant in (1, 3), annotated=variant in (2, 3))
     if r[0] == 'err':
         return r
     a, k = call_values(args, kw)
